@@ -1,7 +1,7 @@
 /-
 WP close: the hypotheses of the world theorems (PcProofs/CloseWorld.lean) are satisfiable — `exWorld`: the sieving-core model below
 `2^50` (no float assumption left), sieve size 256 KiB, tables up to 3000, `phi_vector`'s φ by the driver's executable `hlPhiOf`,
-phi.cpp's prime vector / `pix_upper` / caches by specification values; `exWorld_ok : exWorld.OK 100`; a COMPLETE execution of
+phi.cpp's `pix_upper` / caches by specification values, its prime vector by `store_n_primes` over the iterator model; `exWorld_ok : exWorld.OK 100`; a COMPLETE execution of
 `pi_gourdon_64(100000)` over these tables (`exGExecC_world`), `PhiRunOK` at every level, and the nested-call hypothesis
 `Nested` at `x = 10^5` (every `pi_noprint(n)`, `n < 10^5`, answered by the cache or by `pi_legendre` with the phi model inside).
 -/
@@ -28,7 +28,7 @@ noncomputable def exWorld : World where
   pthreads := fun _ _ => 1
   f := fun n => π n + 1
   piFn := fun _ _ _ => 0
-  prime := fun _ _ i => if i = 0 then 0 else Spec.p i
+  nthHint := fun _ a => 12 * a
   order := fun _ a => List.range' 9 (a - 8)
   sched := fun _ _ _ => (idealCache, 0)
 
@@ -44,8 +44,6 @@ theorem exWorld_ok : exWorld.OK 100 where
 
 theorem exWorld_phiRunOK (n : ℕ) : exWorld.PhiRunOK n where
   lit := fun _ _ => Or.inl (Nat.le_succ _)
-  prime0 := fun _ => rfl
-  primes := fun _ i hi _ => if_neg (by omega)
   order := fun _ => List.Perm.refl _
   cache := fun _ _ _ _ => cacheOK_initial idealCache_valOK
 
